@@ -225,7 +225,7 @@ def run(scn_wrap, docs_out):
         spec = openrpc.OpenRPC(info=openrpc.Info(title='t', version='1'), schema_extractor=ex[0] if ex else None)
     else:
         spec = openapi.OpenAPI(info=openapi.Info(title='t', version='1'), openapi='3.1.0' if scn['kind'] == 'openapi31' else '3.0.3',
-                               schema_extractors=ex)
+                               schema_extractors=ex, error_http_status_map={2001: 400} if scn.get('statusmap') == 'map' else {})
     path = '/v1' if scn['prefix'] == 'none' else '/rpc'
     ev = []
     for g in range(3):
